@@ -583,11 +583,21 @@ def run(chk):
             try:
                 f = a / b              # CPython: correctly rounded quotient of the exact integers
                 kind = "exact" if Fraction(f) == Fraction(a, b) else "nearest"
-                lcases.append(("true_div." + kind, f"{lit(a)} / {lit(b)}", None, fhex(f) if f != 0 or a == 0 else "UNDERFLOW", (a, b)))
+                lcases.append(("true_div." + kind, f"{lit(a)} / {lit(b)}", None, fhex(f) if f != 0 else "ZERO", (a, b)))
             except OverflowError:
                 lcases.append(("true_div.overflow", f"{lit(a)} / {lit(b)}", None, ERR, (a, b)))
         else:
             lcases.append(("true_div.zero", f"{lit(a)} / {lit(b)}", None, ERR, (a, b)))
+        v = abs(rng.choice(fl_pool[:len(pool)]))
+        form = rng.choice(["hex", "bin", "us"])
+        if form == "hex":
+            ltxt = f"0x{v:x}" if rng.random() < 0.5 else f"0x{v:X}"
+        elif form == "bin":
+            ltxt = f"0b{v:b}"
+        else:
+            d = str(v)
+            ltxt = d[0] + "".join(("_" if rng.random() < 0.3 else "") + ch for ch in d[1:])
+        lcases.append(("literal." + form, ltxt, None, o_int(v), (v,)))
         c = rng.choice([0, 65, 0x7f, 0xe9, 0x3b1, 0xd7ff, 0xd800, 0xdfff, 0xe000, 0xffff, 0x10000, 0x1f600, 0x10ffff, 0x110000,
                         2**32 - 1, 2**32, 2**32 + 65, -1, 2**64, -2**64, rng.randrange(0x110000)])
         ok = 0 <= c <= 0x10ffff and not (0xd800 <= c <= 0xdfff)
@@ -602,7 +612,7 @@ def run(chk):
             chk.nontrivial.add((name,) + tuple(inp))
         got = canon_impl(d)
         replay = {"src": f"let r = {expr};", "get": ["r"], "expected": want, "got": d}
-        if want == "UNDERFLOW":     # quotient below the subnormal range: any zero of the right sign class is accepted
+        if want == "ZERO":     # a zero quotient (0 / b, or below the subnormal range): the sign of a float zero is not an integer fact
             want = got if got in ("(float 0000000000000000)", "(float 8000000000000000)") else "(float 0000000000000000)"
         if want == "HASH":
             bad = not (got.startswith("(int ") and 0 <= int(got.split()[2].rstrip(")")) < 2**64)
